@@ -93,7 +93,7 @@ def solve_once(env, tag, overrides, script=None, solver=None, observers=None):
             out = script[k]["out"]
         xs, ys, lam, rec, accb = out
         nxt = Iterate(prob, params, arr(xs), arr(ys), iterate.eval)
-        run.trials.append(dict(it=iterate, x=items(iterate.x), y=items(iterate.y), rho=rho, dt=dt, out=out, nxt=nxt, acc=accb, display=display))
+        run.trials.append(dict(it=iterate, x=items(iterate.x), y=items(iterate.y), rho=rho, dt=dt, out=out, nxt=nxt, acc=accb, display=display, checked_before=(clock.reads[-1] if clock.reads else None)))
         return SCR(nxt, lam, None, None, accb)
 
     solver._compute_step = oracle
@@ -191,6 +191,9 @@ def h_prefix(E, shape):
     nb = len(B.trials)
     res = B.res
     E.prove(res.iterations == nb, "C08.counters_consistent")
+    if mode == "iterations":
+        # a budget of k iterations means exactly k trial steps, unless the reference run ended earlier
+        E.prove(lor(k == nb, land(nb == len(A.trials), k >= nb)), "C08.budget_k_means_exactly_k_trials")
     # A's state at that moment
     n = env.spec["n"]
     if nb < len(A.trials):
@@ -236,3 +239,99 @@ def h_observe(E, shape):
     E.prove(len(B.cbs) == len(B.trials) - (1 if B.exc else 0), "C09.callbacks_see_every_trial")
     if B.res is not None and B.trials:
         E.reach("C09.displayed_and_undisplayed_rows")
+
+
+def h_repeat_l2(E, shape):
+    """C10 with the REAL step controllers: two solves on one Solver object with the oracle behind
+    the public Params.step_solver hook; the second solve's step solver replays the first one's
+    outputs by call index.  Controller / PI-controller memory that survived the first solve would
+    change the step sizes the second solve asks for."""
+    P = boot.mod("params")
+    S = boot.mod("solver")
+    SS = boot.mod("step.solver.step_solver")
+    IF = boot.mod("implicit_func")
+    SSE = boot.mod("step.step_solver_error").StepSolverError
+    K = shape["K"]
+    user, spec = common.make_problem(E, shape.get("vars", ["boxed"]), shape.get("cons", []))
+    n, m = spec["n"], spec["m"]
+    state = dict(run=None, script=None)
+    max_solves = shape.get("max_solves", 4)
+
+    class Oracle(SS.StepSolver):
+        def __init__(self, problem, params, iterate, dt, rho):
+            super().__init__(problem, params)
+            self._f = IF.ImplicitFunc(problem, iterate, dt)
+            state["run"]["made"].append(dict(x=items(iterate.x), y=items(iterate.y), dt=dt, rho=rho))
+
+        func = property(lambda self: self._f)
+
+        def update_active_set(self, a):
+            self._active_set = a
+
+        def update_derivs(self, it):
+            pass
+
+        def solve(self, it):
+            run = state["run"]
+            k = len(run["solves"])
+            if state["script"] is None:
+                if k >= max_solves:
+                    raise Abort()
+                fail = bool(E.fresh_bool("solve_fails"))
+                out = ("fail",) if fail else ([E.fresh_real("dx") for _ in range(n)], [E.fresh_real("dy") for _ in range(m)])
+            else:
+                if k >= len(state["script"]):
+                    run["beyond"] = True
+                    raise Abort()
+                out = state["script"][k]["out"]
+            run["solves"].append(dict(x=items(it.x), y=items(it.y), out=out))
+            if out[0] == "fail":
+                raise SSE("injected")
+            return SS.StepResult(it, arr(out[0]), arr(out[1]), self._active_set, None)
+
+    params = P.Params(
+        step_solver=Oracle,
+        step_control_type=P.StepControlType[shape["controller"]],
+        iteration_limit=K,
+        newton_tol=E.real("newton_tol", lo=0, lo_strict=True),
+        opt_tol=E.real("opt_tol", lo=0, lo_strict=True),
+        penalty_update=P.PenaltyUpdate[shape.get("policy", "DualNorm")],
+    )
+    boot.mod("timer").time = boot.Clock(E)
+    solver = S.Solver(user, params)
+    x0 = []
+    for j in range(n):
+        v = E.real(f"x0_{j}")
+        E.assume(land(spec["xl"][j] <= v, v <= spec["xu"][j]))
+        x0.append(v)
+    y0 = [E.real(f"y0_{i}") for i in range(m)]
+    runs = []
+    for tag in ("a", "b"):
+        run = dict(made=[], solves=[], beyond=False, res=None, exc=None)
+        state["run"] = run
+        state["script"] = None if tag == "a" else runs[0]["solves"]
+        if tag == "b" and shape.get("fresh_solver"):
+            solver = S.Solver(user, params)
+        try:
+            run["res"] = solver.solve(arr(x0), arr(y0) if m else None)
+        except Exception as e:
+            if "Inverse step size" in str(e) and type(e) is Exception:
+                run["exc"] = "lamb_max"
+            else:
+                raise
+        runs.append(run)
+    A, B = runs
+    pre = "C10.real_controllers."
+    E.prove(not B["beyond"] and len(B["made"]) == len(A["made"]) and len(B["solves"]) == len(A["solves"]), pre + "same_number_of_step_solver_calls")
+    ok = True
+    for a, b in zip(A["made"], B["made"]):
+        ok = land(ok, common.eq_all(a["x"], b["x"]), common.eq_all(a["y"], b["y"]), a["dt"] == b["dt"], a["rho"] == b["rho"])
+    E.prove(ok, pre + "same_trial_points_step_sizes_and_penalties")
+    ok = True
+    for a, b in zip(A["solves"], B["solves"]):
+        ok = land(ok, common.eq_all(a["x"], b["x"]), common.eq_all(a["y"], b["y"]))
+    E.prove(ok, pre + "same_newton_iterates")
+    E.prove((A["exc"] is None) == (B["exc"] is None), pre + "same_outcome_kind")
+    if A["res"] is not None and B["res"] is not None:
+        E.prove(A["res"].status == B["res"].status and A["res"].iterations == B["res"].iterations and A["res"].num_accepted_steps == B["res"].num_accepted_steps, pre + "same_status_and_counters")
+        E.prove(common.eq_all(result_terms(A["res"]), result_terms(B["res"])), pre + "same_solution")
